@@ -161,6 +161,26 @@ func vc12check(b *vc12b, top vc12node, viaStack bool) {
 	var p *vc12ptr
 	vf.Assert(errors.As(r, &p) == wantPtr, "errors-as-pointer-disagrees")
 	un := Unwind(r)
+	// a result is a value: building further aggregates from it must not change it
+	before := append([]error(nil), un...)
+	r2 := Join(r, vc12C)
+	_ = Wrap(r, "again")
+	st2 := &Stack{}
+	st2.Push(r)
+	st2.Push(vc12C)
+	_ = errors.Join(r, vc12C)
+	vf.Assert(errors.Is(r2, vc12C), "join-onto-a-result-loses-the-new-error")
+	for _, l := range top.leaves {
+		vf.Assert(errors.Is(r2, l), "join-onto-a-result-loses-a-constituent")
+	}
+	after := Unwind(r)
+	vf.Assert(len(after) == len(before), "result-changed-by-reusing-it-as-an-operand")
+	for i := range before {
+		if len(after) == len(before) {
+			vf.Assert(after[i] == before[i], "result-changed-by-reusing-it-as-an-operand")
+		}
+	}
+	vf.Assert(!errors.Is(r, vc12C), "result-changed-by-reusing-it-as-an-operand")
 	if len(top.atoms) == 1 {
 		// a single constituent (possibly a wrapper whose chain is also listed)
 		cnt := 0
